@@ -27,83 +27,7 @@ func init() {
 
 func runC17(c *report.Ctx) {
 	p := c.P
-	lr := lockAnalysis(c)
-	c.Rule("common-lock", "every write to a shared field and every access that may run concurrently with it hold a common lock, the writer in exclusive mode", 10)
-	c.Extra["lockset_contexts"] = lr.res.Contexts
-	c.Extra["lockset_roots"] = len(lr.roots)
-	byLoc := map[string][]lockset.Access{}
-	for _, a := range lr.res.Accesses {
-		byLoc[a.Loc] = append(byLoc[a.Loc], a)
-	}
-	var locs []string
-	for l := range byLoc {
-		locs = append(locs, l)
-	}
-	sort.Strings(locs)
-	// frozen exceptions: one named location + reason
-	exceptions := map[string]string{}
-	for _, loc := range locs {
-		as := byLoc[loc]
-		hasWrite := false
-		for _, a := range as {
-			if a.Write {
-				hasWrite = true
-			}
-		}
-		if !hasWrite {
-			continue
-		}
-		if r, ok := exceptions[loc]; ok {
-			c.Exception(loc, r)
-			continue
-		}
-		// find the first conflicting pair
-		type pair struct{ w, x lockset.Access }
-		var bad *pair
-		npairs := 0
-		for i := range as {
-			w := as[i]
-			if !w.Write {
-				continue
-			}
-			for j := range as {
-				x := as[j]
-				if i == j && !(lr.kind[w.Root] == "api" || lr.kind[w.Root] == "listener") {
-					continue
-				}
-				if !concurrentKinds(lr.kind[w.Root], lr.kind[x.Root], w.Root == x.Root) {
-					continue
-				}
-				npairs++
-				ok := false
-				for l, mw := range w.Locks {
-					mx, held := x.Locks[l]
-					if !held || mw != 'W' {
-						continue
-					}
-					if x.Write && mx != 'W' {
-						continue
-					}
-					ok = true
-				}
-				if !ok && bad == nil {
-					bad = &pair{w, x}
-				}
-			}
-		}
-		if bad != nil {
-			key := loc + ":" + sk(bad.w.Fn) + "~" + sk(bad.x.Fn)
-			kind := "read"
-			if bad.x.Write {
-				kind = "write"
-			}
-			c.Fail(key, fmt.Sprintf("data race on %s: written in %s holding {%s} (root %s) and %s in %s holding {%s} (root %s) with no common exclusive lock", loc, sk(bad.w.Fn), bad.w.Locks.Key(), sk(bad.w.Root), kind, sk(bad.x.Fn), bad.x.Locks.Key(), sk(bad.x.Root)),
-				p.InstrPos(bad.w.In), "write at "+p.InstrPos(bad.w.In), kind+" at "+p.InstrPos(bad.x.In))
-		} else if npairs > 0 {
-			// common locks over all accesses (for the evidence)
-			c.OK(loc, fmt.Sprintf("%d conflicting access pairs, each with a common exclusive lock", npairs), "")
-		}
-	}
+	ruleCommonLock(c, nil, "every write to a shared field and every access that may run concurrently with it hold a common lock, the writer in exclusive mode", 10)
 
 	// the handler token used above is only sound while the hand-shake has its rendezvous shape
 	ruleSuspendResume(c)
@@ -168,5 +92,92 @@ func runC17(c *report.Ctx) {
 				c.Fail(key, "unsigned subtraction syncHeight - block.Height without a guard, on a read that is not a snapshot: a credit of a block committed after syncHeight was read underflows to ~2^64 confirmations and is reported mature/spendable", posOf(c, in))
 			}
 		})
+	}
+	ruleTipFromTransaction(c)
+}
+
+// ruleCommonLock: the lockset race rule, optionally restricted to the locations a property's clause is about.
+func ruleCommonLock(c *report.Ctx, only func(loc string) bool, decides string, floor int) {
+	p := c.P
+	lr := lockAnalysis(c)
+	c.Rule("common-lock", decides, floor)
+	c.Extra["lockset_contexts"] = lr.res.Contexts
+	c.Extra["lockset_roots"] = len(lr.roots)
+	byLoc := map[string][]lockset.Access{}
+	for _, a := range lr.res.Accesses {
+		byLoc[a.Loc] = append(byLoc[a.Loc], a)
+	}
+	var locs []string
+	for l := range byLoc {
+		if only != nil && !only(l) {
+			continue
+		}
+		locs = append(locs, l)
+	}
+	sort.Strings(locs)
+	c.Extra["shared_locations"] = locs
+	// frozen exceptions: one named location + reason
+	exceptions := map[string]string{}
+	for _, loc := range locs {
+		as := byLoc[loc]
+		hasWrite := false
+		for _, a := range as {
+			if a.Write {
+				hasWrite = true
+			}
+		}
+		if !hasWrite {
+			continue
+		}
+		if r, ok := exceptions[loc]; ok {
+			c.Exception(loc, r)
+			continue
+		}
+		// find the first conflicting pair
+		type pair struct{ w, x lockset.Access }
+		var bad *pair
+		npairs := 0
+		for i := range as {
+			w := as[i]
+			if !w.Write {
+				continue
+			}
+			for j := range as {
+				x := as[j]
+				if i == j && !(lr.kind[w.Root] == "api" || lr.kind[w.Root] == "listener") {
+					continue
+				}
+				if !concurrentKinds(lr.kind[w.Root], lr.kind[x.Root], w.Root == x.Root) {
+					continue
+				}
+				npairs++
+				ok := false
+				for l, mw := range w.Locks {
+					mx, held := x.Locks[l]
+					if !held || mw != 'W' {
+						continue
+					}
+					if x.Write && mx != 'W' {
+						continue
+					}
+					ok = true
+				}
+				if !ok && bad == nil {
+					bad = &pair{w, x}
+				}
+			}
+		}
+		if bad != nil {
+			key := loc + ":" + sk(bad.w.Fn) + "~" + sk(bad.x.Fn)
+			kind := "read"
+			if bad.x.Write {
+				kind = "write"
+			}
+			c.Fail(key, fmt.Sprintf("data race on %s: written in %s holding {%s} (root %s) and %s in %s holding {%s} (root %s) with no common exclusive lock", loc, sk(bad.w.Fn), bad.w.Locks.Key(), sk(bad.w.Root), kind, sk(bad.x.Fn), bad.x.Locks.Key(), sk(bad.x.Root)),
+				p.InstrPos(bad.w.In), "write at "+p.InstrPos(bad.w.In), kind+" at "+p.InstrPos(bad.x.In))
+		} else if npairs > 0 {
+			// common locks over all accesses (for the evidence)
+			c.OK(loc, fmt.Sprintf("%d conflicting access pairs, each with a common exclusive lock", npairs), "")
+		}
 	}
 }
